@@ -5,6 +5,7 @@ package main
 
 import (
 	"fmt"
+	"math/big"
 	"math/bits"
 	"strings"
 	"sync"
@@ -65,6 +66,10 @@ type Term struct {
 	args []*Term
 	umax uint64 // upper bound on the unsigned value (BV terms)
 	tab  *tableT
+	// Int mode
+	bk     *big.Int
+	lo, hi *big.Int
+	alias  *Term // same value as alias, tighter interval
 }
 
 func (t *Term) IsConst() bool { return t.op == OpConst }
@@ -78,7 +83,7 @@ func mask(w int) uint64 {
 }
 
 func sext64(v uint64, w int) int64 {
-	if w >= 64 {
+	if w >= 64 || w <= 0 {
 		return int64(v)
 	}
 	sh := uint(64 - w)
@@ -96,6 +101,16 @@ type TermStore struct {
 	linc  *linCtx
 	sub   *substCtx
 	sup   map[int]*supInfo
+	// Int mode
+	intMode    bool
+	pending    []*Term // side conditions (ranges of fresh variables, quotient definitions)
+	ranged     map[string]bool
+	monos      map[[2]int]*Term
+	quots      map[string]*Term
+	monoSeq    int
+	quotSeq    int
+	wraps      int
+	abstracted bool
 }
 
 // Constants are global (shared by all stores, including the init-time heap) so that frozen
@@ -253,6 +268,9 @@ func (s *TermStore) computeUmax(t *Term) uint64 {
 }
 
 func (s *TermStore) Const(w int, v uint64) *Term {
+	if s.intMode && w != 0 {
+		return s.IConstU(v & mask(w))
+	}
 	if w == 0 {
 		if v != 0 {
 			return s.tt
@@ -290,10 +308,24 @@ func sortStr(w int) string {
 	if w == 0 {
 		return "Bool"
 	}
+	if w == IntW {
+		return "Int"
+	}
 	return fmt.Sprintf("(_ BitVec %d)", w)
 }
 
 func (s *TermStore) bin(op Op, a, b *Term) *Term {
+	if a.w == IntW && b.w == IntW {
+		switch op {
+		case OpAdd:
+			return s.IAdd(a, b)
+		case OpSub:
+			return s.ISub(a, b)
+		case OpMul:
+			return s.IMul(a, b)
+		}
+		panic(unsupported("Int-mode operation " + opNames[op] + " reached the bit-vector layer"))
+	}
 	if a.w != b.w {
 		panic(fmt.Sprintf("width mismatch %d vs %d in %v", a.w, b.w, op))
 	}
@@ -497,6 +529,9 @@ func (s *TermStore) Not(a *Term) *Term {
 	return s.mk(&Term{op: OpNot, w: a.w, args: []*Term{a}})
 }
 func (s *TermStore) Neg(a *Term) *Term {
+	if a.w == IntW {
+		return s.INeg(a)
+	}
 	if a.IsConst() {
 		return s.Const(a.w, -a.k)
 	}
@@ -504,6 +539,13 @@ func (s *TermStore) Neg(a *Term) *Term {
 }
 
 func (s *TermStore) Extract(a *Term, hi, lo int) *Term {
+	if a.w == IntW {
+		x := a
+		if lo > 0 {
+			x = s.IDivC(x, pow2(lo))
+		}
+		return s.IModC(x, pow2(hi-lo+1))
+	}
 	if lo == 0 && hi == a.w-1 {
 		return a
 	}
@@ -579,6 +621,9 @@ func (s *TermStore) Extract(a *Term, hi, lo int) *Term {
 }
 
 func (s *TermStore) ZExt(a *Term, w int) *Term {
+	if a.w == IntW {
+		return a
+	}
 	if w == a.w {
 		return a
 	}
@@ -598,6 +643,9 @@ func (s *TermStore) ZExt(a *Term, w int) *Term {
 }
 
 func (s *TermStore) SExt(a *Term, w int) *Term {
+	if a.w == IntW {
+		return a
+	}
 	if w == a.w {
 		return a
 	}
@@ -649,10 +697,16 @@ func (s *TermStore) Ite(c, a, b *Term) *Term {
 	if c.op == OpBNot {
 		return s.Ite(c.args[0], b, a)
 	}
+	if a.w == IntW {
+		return s.mk(&Term{op: OpIte, w: IntW, args: []*Term{c, a, b}, lo: minBig(a.lo, b.lo), hi: maxBig(a.hi, b.hi)})
+	}
 	return s.mk(&Term{op: OpIte, w: a.w, args: []*Term{c, a, b}})
 }
 
 func (s *TermStore) Eq(a, b *Term) *Term {
+	if a.w == IntW && b.w == IntW {
+		return s.IEq(a, b)
+	}
 	if a.w != b.w {
 		panic(fmt.Sprintf("eq width mismatch %d vs %d", a.w, b.w))
 	}
@@ -744,6 +798,9 @@ func order(a, b *Term) []*Term {
 }
 
 func (s *TermStore) Ult(a, b *Term) *Term {
+	if a.w == IntW {
+		return s.ILt(s.uview(a, 64), s.uview(b, 64))
+	}
 	if a.IsConst() && b.IsConst() {
 		return s.Bool(a.k < b.k)
 	}
@@ -815,6 +872,9 @@ func iteOfConsts(t *Term, depth int) bool {
 }
 
 func (s *TermStore) Slt(a, b *Term) *Term {
+	if a.w == IntW {
+		return s.ILt(a, b)
+	}
 	if a.IsConst() && b.IsConst() {
 		return s.Bool(sext64(a.k, a.w) < sext64(b.k, b.w))
 	}
@@ -937,6 +997,9 @@ func bvLit(w int, v uint64) string {
 func (t *Term) ref() string {
 	switch t.op {
 	case OpConst:
+		if t.w == IntW {
+			return intLit(t.bk)
+		}
 		if t.w == 0 {
 			if t.k != 0 {
 				return "true"
@@ -971,7 +1034,20 @@ func (t *Term) body() string {
 		}
 		sb.WriteString(")")
 	default:
-		sb.WriteString("(" + opNames[t.op])
+		name := opNames[t.op]
+		if len(t.args) > 0 && t.args[len(t.args)-1].w == IntW {
+			switch t.op {
+			case OpAdd:
+				name = "+"
+			case OpMul:
+				name = "*"
+			case OpSlt:
+				name = "<"
+			case OpSle:
+				name = "<="
+			}
+		}
+		sb.WriteString("(" + name)
 		for _, a := range t.args {
 			sb.WriteString(" " + a.ref())
 		}
@@ -1142,8 +1218,16 @@ func supportVars(t *Term, seen map[int]bool, out *[]*Term) {
 
 // evalTerm evaluates t under an assignment of its variables (by ref name). UFs are not evaluable.
 func evalTerm(t *Term, m map[string]uint64, memo map[int]uint64) (uint64, bool) {
+	if t.w == IntW {
+		return 0, false // Int-mode terms are evaluated by the solver
+	}
 	if t.IsConst() {
 		return t.k, true
+	}
+	for _, a := range t.args {
+		if a.w == IntW {
+			return 0, false
+		}
 	}
 	if v, ok := memo[t.id]; ok {
 		return v, true
